@@ -538,6 +538,13 @@ def inline_partials(repo):
             if isinstance(x, ast.Name) and isinstance(x.ctx, ast.Store):
                 stores[x.id] = stores.get(x.id, 0) + 1
         parts = {}
+        gens = {}
+        for a in ast.walk(fn):
+            if isinstance(a, ast.Assign) and len(a.targets) == 1 \
+                    and isinstance(a.targets[0], ast.Name) \
+                    and stores.get(a.targets[0].id) == 1 \
+                    and isinstance(a.value, ast.GeneratorExp):
+                gens[a.targets[0].id] = a.value
         for a in ast.walk(fn):
             if isinstance(a, ast.Assign) and len(a.targets) == 1 \
                     and isinstance(a.targets[0], ast.Name) \
@@ -549,6 +556,8 @@ def inline_partials(repo):
                         isinstance(x, ast.Starred) for x in a.value.args) \
                     and not any(k.arg is None for k in a.value.keywords):
                 parts[a.targets[0].id] = a
+
+        used_gens = set()
 
         class R(ast.NodeTransformer):
             def visit_Call(self, n):
@@ -576,6 +585,39 @@ def inline_partials(repo):
                         func=ast.Attribute(value=n.func.value, attr='add',
                                            ctx=ast.Load()),
                         args=[ev_], keywords=[]), n)
+                if isinstance(n.func, ast.Attribute) and n.func.attr == \
+                        'take' and len(n.args) == 1 and all(
+                            k.arg == 'axis' and isinstance(
+                                k.value, ast.Constant) and k.value.value == 0
+                            for k in n.keywords) \
+                        and ast.unparse(n.func.value) not in ('np', 'numpy'):
+                    # ndarray.take(idx, axis=0) is x[idx]
+                    return ast.copy_location(ast.Subscript(
+                        value=n.func.value, slice=n.args[0],
+                        ctx=ast.Load()), n)
+                if ast.unparse(n.func) in ('itertools.compress',
+                                           'compress') and len(n.args) == 2 \
+                        and not n.keywords:
+                    # compress(data, selectors): the data entries whose
+                    # selector is true, in order
+                    d_, s_ = n.args
+                    if isinstance(s_, ast.Name) and s_.id in gens:
+                        used_gens.add(s_.id)
+                        s_ = copy.deepcopy(gens[s_.id])
+                    if isinstance(s_, (ast.GeneratorExp, ast.ListComp)) \
+                            and len(s_.generators) == 1 \
+                            and not s_.generators[0].ifs:
+                        g_ = s_.generators[0]
+                        return ast.copy_location(ast.ListComp(
+                            elt=ast.Name(id='__d', ctx=ast.Load()),
+                            generators=[ast.comprehension(
+                                target=ast.Tuple(elts=[
+                                    ast.Name(id='__d', ctx=ast.Store()),
+                                    g_.target], ctx=ast.Store()),
+                                iter=ast.Call(
+                                    func=ast.Name(id='zip', ctx=ast.Load()),
+                                    args=[d_, g_.iter], keywords=[]),
+                                ifs=[s_.elt], is_async=0)]), n)
                 if ast.unparse(n.func) in ('np.add.reduce',
                                            'numpy.add.reduce'):
                     n.func = ast.copy_location(ast.Attribute(
@@ -586,11 +628,24 @@ def inline_partials(repo):
                             k.value, ast.Constant)
                         and k.value.value is None)]
                 return n
-        if parts or 'add.reduce' in ast.unparse(fn) or '.schedule(' in \
-                ast.unparse(fn):
+        src_ = ast.unparse(fn)
+        if parts or 'add.reduce' in src_ or '.schedule(' in src_ \
+                or '.take(' in src_ or 'compress(' in src_:
             R().visit(fn)
-            if parts:
+            if parts or used_gens:
                 drop = set(id(a) for a in parts.values())
+                # a generator that was substituted where it was consumed
+                loads = {}
+                for x in ast.walk(fn):
+                    if isinstance(x, ast.Name) and isinstance(
+                            x.ctx, ast.Load):
+                        loads[x.id] = loads.get(x.id, 0) + 1
+                for a in ast.walk(fn):
+                    if isinstance(a, ast.Assign) and len(a.targets) == 1 \
+                            and isinstance(a.targets[0], ast.Name) \
+                            and a.targets[0].id in used_gens \
+                            and not loads.get(a.targets[0].id):
+                        drop.add(id(a))
 
                 def prune(stmts):
                     out = []
